@@ -390,6 +390,11 @@ impl Check {
         C: Debug + Clone + Serialize + Send + 'static,
         S: Strategy<Value = C>,
     {
+        if !self.stats.violations.lock().unwrap().is_empty() {
+            // an earlier part of this check already found a violation: the verdict is settled, and the code under
+            // test is known to be broken (later parts may run away on it)
+            return;
+        }
         let stop = AtomicBool::new(false);
         let workers = self.workers.max(1).min(cases.max(1) as usize);
         let per = cases.div_ceil(workers as u32);
@@ -505,6 +510,9 @@ impl Check {
     where
         C: Debug + Clone + Serialize + Send + 'static,
     {
+        if !self.stats.violations.lock().unwrap().is_empty() {
+            return;
+        }
         let workers = self.workers.max(1);
         let best: Mutex<Option<(u64, C, Failure)>> = Mutex::new(None);
         let limit = AtomicU64::new(u64::MAX);
